@@ -219,6 +219,15 @@ Eval(e, env, st, cx) ==
                ELSE LET x == ExactOne(OpName[e.k], r.v, IF cx.fam = "real" THEN "RNE" ELSE cx.rm, GridFor(cx))
                     IN  IF x.irr /\ BigCtx(cx) THEN Er("OutOfDomain", r.st)     \* an irrational result under a wide format
                         ELSE MRound(cx, x.v, r.st)
+      [] e.k = "Logb" ->          \* the normalized exponent floor(log2 |x|), an integer, rounded under the active context
+           LET r == Eval(e.a[1], env, st, cx)
+           IN  IF r.err # "" THEN r ELSE IF ~IsNum(r.v) THEN Er("TypeError", r.st)
+               ELSE IF r.v.k = "nan" THEN MRound(cx, NaN, r.st)
+               ELSE IF r.v.k = "inf" THEN MRound(cx, Inf(0), r.st)
+               ELSE IF r.v.n = 0 THEN MRound(cx, Inf(1), r.st)
+               ELSE IF ~Small(r.v) THEN Er("OutOfDomain", r.st)
+               ELSE IF ~IsDyadic(r.v) THEN Er("ValueError", r.st)       \* a non-dyadic rational has no float form
+               ELSE MRound(cx, OfInt(FloorLog2(r.v.n, r.v.d)), r.st)
       [] e.k = "NearbyInt" ->
            LET r == Eval(e.a[1], env, st, cx)
            IN  IF r.err # "" THEN r ELSE IF ~IsNum(r.v) THEN Er("TypeError", r.st)
